@@ -48,7 +48,7 @@ ASSUMPTIONS = [
 ]
 
 HEADER = ("From Coq Require Import List NArith Bool.\nImport ListNotations.\n"
-          "From SV Require Import lib.Bytes gen.GenPending model.Pending.\n"
+          "From SV Require Import lib.Bytes lib.SqlExpr model.PendingTypes gen.GenPending model.Pending.\n"
           "Open Scope N_scope.\n")
 
 KIND_NAMES = {0: "file", 1: "resource", 2: "failed", 3: "deferred", 4: "other", 5: "runnable", 6: "block_step"}
@@ -419,6 +419,7 @@ async def observe(w):
         if tables:
             obs["blocker"] = canon_rows(db, tables, tables["pend_blocker"])
             obs["attributed"] = canon_rows(db, tables, tables["pend_attributed"])
+        obs["truth"] = dispatch_truth(db, obs["snap"])
         obs["labels"] = dict(db.execute("SELECT i, label FROM node"))
         obs["file_ids"] = dict(db.execute("SELECT label, i FROM node WHERE kind = 'file'"))
         # inputs of report_unbuilt measured through the same real helpers it uses
@@ -436,6 +437,24 @@ async def observe(w):
     obs["draining"] = bool(w.sched.draining)
     obs["ReturnCode"] = {m.name: m.value for m in ReturnCode}
     return obs
+
+
+def dispatch_truth(db, sn):
+    """What DISPATCH says about the inputs of every pending needed step, asked of the real database
+    with the scheduler's own test (step.unavailable_input_sql, the sub-query of RECOMPUTE_READY);
+    independent of pending.py."""
+    from stepup.core.step import UNAVAILABLE_INPUT_WHERE, unavailable_input_sql
+    out = {}
+    for i, _label, state, ineed, det, *_ in sn["steps"]:
+        if not (state == 21 and ineed > sn["threshold"] and not det):
+            continue
+        refused = bool(db.execute(f"SELECT EXISTS({unavailable_input_sql('?')})", (i,)).fetchone()[0])
+        ids = [r[0] for r in db.execute(
+            "SELECT dep.source FROM dependency AS dep JOIN file AS input_file ON input_file.node = dep.source "
+            "JOIN node AS input_node ON input_node.i = dep.source LEFT JOIN dynamic_dep ON dynamic_dep.i = dep.i "
+            f"WHERE dep.sink = ? AND ({UNAVAILABLE_INPUT_WHERE})", (i,))]
+        out[i] = {"refused": refused, "inputs": sorted(set(ids))}
+    return out
 
 
 def check_term(obs):
@@ -472,6 +491,10 @@ def check_term(obs):
             parts.append(f"(exact_resource sn {coq_str(r.name)} =? {r.nblocked})")
     ru = (f"(ru_of_snap sn {coq_bool(obs['draining'])} {len(obs['miss_t'])} {len(obs['miss_d'])} "
           f"{len(obs['glob_warn'])} {len(obs['glob_err'])})")
+    # the clauses translated from pending.py against their hand-written meaning (always true while
+    # PendingGenSpec.v compiles; a counterexample inside Coq when it does not)
+    parts.append("match cands_disagree sn with [] => true | _ => false end")
+    parts.append("match universe_disagree sn with [] => true | _ => false end")
     parts.append(f"(report_unbuilt {ru} =? {obs['rc']})")
     parts.append(f"(report_unbuilt_gen {ru} =? {obs['rc']})")
     return sn, parts
@@ -642,13 +665,46 @@ def correspondence(ctx):
             if pre and pre[0] == "true":
                 note = (" -- the implementation behaves like the guard chain before fix 4c893f7 "
                         "(D7 regression, cf. C19_prefix_guard_chain_refuted)")
+        if comp in ("cands_disagree", "universe_disagree"):
+            # counterexample found inside Coq: the clauses as translated from pending.py do not mean what
+            # PendingGenSpec.v says on this snapshot (the model follows the code, so model = implementation)
+            ids = common.eval_terms(ctx, "diagids", HEADER, [f"let sn := {sn} in {comp} sn"])
+            which = "blocker-arms" if comp == "cands_disagree" else "universe"
+            ctx.add_failure("correspondence", "clauses:" + which, f"Coq:translated-clause-differs-from-spec:{which}",
+                            f"the WHERE clauses translated from pending.py give other candidates than the relation "
+                            f"pending.py documents (cands_spec) for step ids {ids}; real pend_blocker={obs.get('blocker')}",
+                            witness={"plan": plan, "snapshot": obs["snap"], "steps": ids})
+            continue
         ctx.add_failure("correspondence", "snapshot:" + comp, f"E2:model-vs-analyze_pending:{comp}",
                         f"model and implementation disagree on: {failing[:4]}{note}; summary={obs['summary']}; rc={obs['rc_name']}",
                         witness={"plan": plan, "snapshot": obs["snap"], "first": first})
+    clause_sweep(ctx)
+
+
+def clause_sweep(ctx):
+    """The two sweeps of model/Pending.v over (state, detached, dynamic, deferred): rows dispatch refuses that
+    the translated _INSERT_PEND_FILE_BLOCK clause misses, and rows it lists without reason.  Evaluated inside Coq
+    on the clauses generated in this run."""
+    try:
+        vals = common.eval_terms(ctx, "sweep", HEADER, ["fb_gap_complete", "fb_gap_sound"])
+    except Exception as e:  # noqa: BLE001 - the model did not build; the implementation-only probe still runs
+        ctx.notes.append(f"clause sweep inside Coq skipped: {type(e).__name__}")
+        return
+    for name, v in zip(("complete", "sound"), vals):
+        flat = re.sub(r"\s+", " ", v or "")
+        ctx.count(f"clause-sweep:{name}:{'not-evaluated' if not flat else 'empty' if flat.startswith('[]') else 'gap'}")
+        if flat and not flat.startswith("[]"):
+            m = re.search(r"\((\d+)%?N?, \((true|false), \((true|false), (true|false)\)\)\)", flat)
+            wit = None
+            if m:
+                wit = {"state": int(m.group(1)), "detached": m.group(2) == "true", "dynamic": m.group(3) == "true",
+                       "deferred": m.group(4) == "true"}
+            ctx.add_failure("correspondence", "clauses:file-block", f"Coq:file-block-clause:{'misses-refused-input' if name == 'complete' else 'lists-available-input'}",
+                            f"fb_gap_{name} evaluated inside Coq on the translated clauses = {flat[:300]}", witness=wit)
 
 
 def _component(text):
-    for key in ("blocker_rows", "attributed", "bucket", "count_kind", "dead_files", "unsat_resources",
+    for key in ("cands_disagree", "universe_disagree", "blocker_rows", "attributed", "bucket", "count_kind", "dead_files", "unsat_resources",
                 "exact_file", "exact_resource", "report_unbuilt_gen", "report_unbuilt", "length (U sn)"):
         if key in text:
             return key.replace(" ", "_")
@@ -773,10 +829,165 @@ def oracle_case(ctx, plan, obs, tag=None):
             fails.append(("returncode:zero-but-" + why[0].replace(" ", "-")[:40], f"rc=0 although {why}"))
     if has("INTERNAL") or has("INTERRUPTED"):
         fails.append(("returncode:foreign-bit", f"rc={obs['rc_name']}"))
+    fails += cause_failures(plan, obs)
+    return fails
+
+
+def probe_file_block(state, detached, dynamic, deferred):
+    """One input row through the REAL SQL: does dispatch (step.unavailable_input_sql) refuse it, and does the
+    real pending._INSERT_PEND_FILE_BLOCK list it?  Scratch in-memory database holding only the columns the two
+    statements read; independent of the translator and of Coq."""
+    import sqlite3
+    from stepup.core import pending
+    from stepup.core.step import unavailable_input_sql
+    con = sqlite3.connect(":memory:")
+    con.executescript(
+        "CREATE TABLE node(i INTEGER PRIMARY KEY, detached INTEGER, label TEXT, kind TEXT);"
+        "CREATE TABLE file(node INTEGER PRIMARY KEY, state INTEGER);"
+        "CREATE TABLE dependency(i INTEGER PRIMARY KEY, source INTEGER, sink INTEGER);"
+        "CREATE TABLE dynamic_dep(i INTEGER PRIMARY KEY);"
+        "CREATE TEMP TABLE pend_step(i INTEGER PRIMARY KEY, label TEXT, unsafe INTEGER, deferred INTEGER);"
+        "CREATE TEMP TABLE pend_file_block(src_file INTEGER, dst_step INTEGER);")
+    con.execute("INSERT INTO node VALUES (1, 0, 'step', 'step'), (2, ?, 'f', 'file')", (int(detached),))
+    con.execute("INSERT INTO file VALUES (2, ?)", (state,))
+    con.execute("INSERT INTO dependency VALUES (7, 2, 1)")
+    if dynamic:
+        con.execute("INSERT INTO dynamic_dep VALUES (7)")
+    con.execute("INSERT INTO pend_step VALUES (1, 'step', 0, ?)", (int(deferred),))
+    refused = bool(con.execute(f"SELECT EXISTS({unavailable_input_sql('1')})").fetchone()[0])
+    con.execute(pending._INSERT_PEND_FILE_BLOCK)
+    listed = con.execute("SELECT COUNT(*) FROM pend_file_block").fetchone()[0] > 0
+    con.close()
+    return refused, listed
+
+
+def oracle_clauses(ctx):
+    """Implementation only: over every file state x detached x dynamic x deferred, an input that dispatch refuses
+    is a blocking input for the report (otherwise a blocked step is reported as 'seems runnable'), and a blocking
+    input is refused by dispatch or an unbuilt dynamic input of a deferred step."""
+    from stepup.core.enums import FileState
+    built_ok = (FileState.CONFIRMED.value, FileState.BUILT.value)
+    seen = set()
+    for st in FileState:
+        for det in (False, True):
+            for dyn in (False, True):
+                for defr in (False, True):
+                    try:
+                        refused, listed = probe_file_block(st.value, det, dyn, defr)
+                    except Exception as e:  # noqa: BLE001
+                        sig = f"report:file-block-probe-raises:{type(e).__name__}"
+                        if sig not in seen:
+                            seen.add(sig)
+                            ctx.add_failure("oracle", "clauses", sig, f"{e}", witness=None)
+                        continue
+                    ctx.case(("clause", st.value, det, dyn, defr), refused != listed)
+                    wit = {"state": st.value, "state_name": st.name, "detached": det, "dynamic": dyn, "deferred": defr}
+                    if refused and not listed:
+                        sig = "report:input-refused-by-dispatch-not-blocking-in-report:" + \
+                              ("dynamic" if dyn else "initial") + (":detached" if det else "")
+                        if sig not in seen:
+                            seen.add(sig)
+                            ctx.add_failure("oracle", "clauses", sig,
+                                            f"dispatch (UNAVAILABLE_INPUT_WHERE) refuses an input in {wit}, the real "
+                                            "_INSERT_PEND_FILE_BLOCK does not list it: a step blocked by it gets no "
+                                            "cause and is reported as 'seems runnable'", witness=wit)
+                    if listed and not refused and not (defr and dyn and st.value not in built_ok):
+                        sig = "report:blocking-input-that-dispatch-accepts:" + ("dynamic" if dyn else "initial")
+                        if sig not in seen:
+                            seen.add(sig)
+                            ctx.add_failure("oracle", "clauses", sig,
+                                            f"the real _INSERT_PEND_FILE_BLOCK lists an input dispatch accepts: {wit}",
+                                            witness=wit)
+
+
+def cause_failures(plan, obs):
+    """'The report tells the truth', on the real tables: every row of the real pend_blocker names a cause that
+    is real according to the database dump and to dispatch's own input test."""
+    fails = []
+    sn, tables, truth = obs["snap"], obs.get("tables") or {}, obs.get("truth") or {}
+    if not tables:
+        return fails
+    steps = {s[0]: s for s in sn["steps"]}
+    files = {f[0]: f for f in sn["files"]}
+    avail = dict((n, u) for n, u in sn["avail"])
+    resname = {r[0]: r[1] for r in tables.get("pend_resource", [])}
+    in_u = set(truth)
+    producers, inputs = {}, {}
+    for src, sink, dyn in sn["deps"]:
+        if src in steps and sink in files:
+            producers.setdefault(sink, []).append(src)
+        if src in files and sink in steps:
+            inputs.setdefault(sink, []).append((src, bool(dyn)))
+
+    def ancestors(i):
+        seen, cur = [], steps[i][10]
+        while cur is not None and cur in steps and cur not in seen:
+            seen.append(cur)
+            cur = steps[cur][10]
+        return seen
+
+    for dst, kind, src in tables["pend_blocker"]:
+        if dst not in truth:
+            continue   # reported by pend_blocker:not-one-row-per-step
+        st = steps[dst]
+        deferred, safe = bool(st[8]), bool(st[5]) or (bool(st[6]) and bool(st[7]))
+        blocking = set(truth[dst]["inputs"])
+        if deferred:
+            blocking |= {f for f, dyn in inputs.get(dst, []) if dyn and files[f][2] not in (14, 16)}
+        short = [(n, u) for n, u in st[11] if avail.get(n) is None or avail[n] < u]
+        related = any(src in producers.get(f, []) for f in blocking) or src in ancestors(dst)
+        name = KIND_NAMES.get(kind, str(kind))
+        why = None
+        if kind == 0:
+            if src not in blocking:
+                why = "input-is-available"
+            elif any(p in in_u or steps[p][2] == 24 for p in producers.get(src, [])):
+                why = "file-has-a-live-producer"
+        elif kind == 1:
+            need = dict(st[11]).get(resname.get(src))
+            if need is None:
+                why = "resource-not-required"
+            elif avail.get(resname[src]) is not None and avail[resname[src]] >= need:
+                why = "resource-not-short"
+        elif kind == 2:
+            if src not in steps or steps[src][2] != 24:
+                why = "source-not-failed"
+            elif not related:
+                why = "source-unrelated"
+        elif kind == 3:
+            if not deferred:
+                why = "step-not-deferred"
+            elif truth[dst]["refused"]:
+                why = "input-refused-by-dispatch"
+        elif kind == 4:
+            if safe:
+                why = "step-is-safe"
+            elif src in in_u or (src in steps and steps[src][2] == 24):
+                why = "ancestor-in-universe-or-failed"
+        elif kind == 5:
+            if truth[dst]["refused"]:
+                why = "input-refused-by-dispatch"
+            elif deferred:
+                why = "step-deferred"
+            elif short:
+                why = "resource-short"
+            elif not safe and plan.get("settle") and any(
+                    steps[a][2] not in (22, 23) or steps[a][9] > 0 for a in ancestors(dst)):
+                why = "unsafe-with-chain-broken-ancestor"
+        elif kind == 6:
+            if src not in in_u:
+                why = "source-not-pending"
+            elif not related:
+                why = "source-unrelated"
+        if why:
+            fails.append((f"report:cause-not-real:{name}:{why}",
+                          f"step {dst} ({st[1]!r}) is reported under {name} (src {src}), but {why}: dispatch refuses "
+                          f"inputs {truth[dst]['inputs']}, deferred={deferred}, safe={safe}, short resources={short}"))
     return fails
 
 
 def oracle(ctx):
+    oracle_clauses(ctx)
     results = getattr(ctx, "results", None)
     if results is None:
         with scratch_cwd():
@@ -954,6 +1165,10 @@ def search(ctx):
 def replay(ctx, obj):
     w = obj["failure"].get("witness") or {}
     plan = w.get("plan")
+    if "state" in w and not plan:
+        refused, listed = probe_file_block(w["state"], w["detached"], w["dynamic"], w["deferred"])
+        print(f"replayed clause probe {w}: dispatch refuses={refused}, _INSERT_PEND_FILE_BLOCK lists={listed}")
+        return oracle_clauses(ctx)
     if not plan:
         print("no plan in the replay file; running the oracle")
         return oracle(ctx)
